@@ -153,6 +153,15 @@ CLAIMED["C04"] = dict(
            "of the values and optimality/dual certificate of the assignment solver are NOT claimed."),
     note=TB + "sympy (tooling venv) does the polynomial comparisons. Data-dependent indices (the assignment solver's lists) stay UNKNOWN. Known findings: MatrixTools::lap (see known_findings.json).")
 
+CLAIMED["C05"] = dict(
+    engine="E2+E1+E5+E3",
+    technique="static analysis: class-invariant extraction from constructor initialisers, symbolic index bounds under that invariant, guard dominance in solve, pairing rule (pivot-vector exchange / full-row exchange / sign flip), gather direction of the permuted copy, coverage of the smallest-pivot scan, product-rule index typing of every elimination and substitution update, magnitude comparison in the pivot search, finite case analysis of the triangular extraction, wrapper plumbing of inv/det",
+    level=("Structural necessary conditions of C05 on LUDecomposition and MatrixTools::inv/det: the stored shapes match their use for every square order >= 1, wrong-height right-hand sides and pivots below "
+           "NumConstants::SMALL() reach a throw before any substitution, every row exchange is complete and recorded in both the pivot vector and the determinant's sign, the permuted copy applies the "
+           "permutation in the right direction, the indicator is the minimum over the whole diagonal, all updates are well-typed matrix-product terms in the right triangle and order, the pivot is chosen by "
+           "magnitude. The numerical clauses (backward error bound, exact integer determinants, multiplicativity) are values of runs and are NOT claimed."),
+    note=TB + "The two std::vector overloads of LUDecomposition do not compile (dim1/clean) and cannot be instantiated by any caller; they are outside the analysis.")
+
 NOT_APPLICABLE = {
     "C06": ("every clause is a floating-point identity of the JAMA QL/QR iterations (A.V = V.D within k.eps, ordering, trace/determinant); correctness lies in rotation coefficients and "
             "deflation tests that no sound static argument in reach bounds, and no structural necessary condition separable from run-time invariants exists (DESIGN.md section 6)"),
